@@ -51,6 +51,8 @@ pub struct Builder { pub idle_time_out: Option<u32>, pub buffer_size: usize, pub
 impl Open { #[verifier::external_body] pub fn from(b: Builder) -> (r: Open) { unimplemented!() } }
 #[verifier::external_body]
 pub fn idle_duration(t: Option<u32>) -> (r: Option<Duration>) { unimplemented!() }
+/// Duration::from_millis (present so that the explicit-match spelling of the idle time-out conversion is decided)
+impl Duration { #[verifier::external_body] pub fn from_millis(ms: u64) -> (r: Duration) { unimplemented!() } }
 pub struct Connection { pub connection_stop_reason: ConnStopArc }
 impl Connection {
     #[verifier::external_body]
